@@ -158,13 +158,17 @@ def run_v(chk, module, cfg, records, describe, *, workers=1, timeout=1500,
     chk.add_tlc(r)
     if r.violation:
         raise MachineryError("TLC reported %s while validating traces\n%s" % (r.violation, r.error_text))
+    seen_fp = set()
     for i, rec in enumerate(records, 1):
         chk.evaluations += 1
         chk.traces += 1
         v = verdicts.get(i)
         clause = v["clause"] if v else "no-behaviour-of-the-specification-matches"
         if nontrivial is not None and nontrivial(rec, v):
-            chk.nontrivial_count += 1
+            fp = json.dumps(trace[i - 1], sort_keys=True, default=str)
+            if fp not in seen_fp:          # recorded executions may repeat: each distinct one counts once
+                seen_fp.add(fp)
+                chk.nontrivial_count += 1
         if clause != "accepted":
             det = describe(i, rec, clause, v)
             if det is None:
